@@ -59,6 +59,8 @@ theorem loc_errShape (op : Op) (next : Nat) (t : T) : ErrShape t (op.loc next t)
     · exact errShape_err _ _ _
     · exact errShape_ok _ _ _ _ _
   | copy p kp => exact Or.inl rfl
+  | addMeas p ms => exact errShape_ok _ _ _ _ _
+  | dropMeas p => exact errShape_ok _ _ _ _ _
 
 theorem atPath_unchanged (f : T → Loc) (p : Path) (t : T) (r : Loc) (h : atPath f p t = some r)
     (hf : ∀ n, locate t p = some n → ErrShape n (f n)) :
